@@ -1428,6 +1428,52 @@ impl World for C15 {
             out.push((format!("junk token {} alone and between cards", JUNK[j as usize]), vec![Op::BuildText { dst: 0, tokens: vec![Tok::Junk(j)], seps: vec![], lead: false, trail: false }, Op::Valid { r: 0 }, Op::BuildText { dst: 1, tokens: vec![Tok::Card { idx: 3, spell: 0, tail: 0 }, Tok::Junk(j), Tok::Card { idx: 40, spell: 3, tail: 0 }], seps: vec![0, 2], lead: false, trail: false }, Op::Count { r: 1 }, Op::Drain { r: 1 }]));
         }
         out.push(("empty text".into(), vec![Op::BuildText { dst: 0, tokens: vec![], seps: vec![], lead: true, trail: false }, Op::Valid { r: 0 }, Op::Peel { r: 0 }]));
+        // every pair of cards: peel order, subset queries, two-slot hands in both orders
+        for i in 0..52usize {
+            let mut ops = Vec::new();
+            for j in 0..52usize {
+                if i < j {
+                    ops.push(Op::BuildRaw { dst: 0, bits: card_bit(i) | card_bit(j) });
+                    ops.push(Op::Peel { r: 0 });
+                    ops.push(Op::Peel { r: 0 });
+                    ops.push(Op::Peel { r: 0 });
+                }
+                ops.push(Op::BuildRaw { dst: 1, bits: card_bit(i) });
+                ops.push(Op::Has { r: 1, q: card_bit(i) | card_bit(j) });
+                ops.push(Op::Has { r: 1, q: card_bit(j) });
+                ops.push(Op::BuildHand { dst: 2, n: 2, slots: [i as u8, j as u8, BLANK_SLOT, BLANK_SLOT, BLANK_SLOT, BLANK_SLOT, BLANK_SLOT], via_setters: false, order: 0 });
+                ops.push(Op::FoldIn { dst: 3, a: 1, b: Src::Raw(card_bit(j)) });
+                ops.push(Op::Count { r: 3 });
+            }
+            ops.push(Op::BuildHand { dst: 2, n: 2, slots: [i as u8, BLANK_SLOT, BLANK_SLOT, BLANK_SLOT, BLANK_SLOT, BLANK_SLOT, BLANK_SLOT], via_setters: false, order: 0 });
+            ops.push(Op::BuildHand { dst: 2, n: 2, slots: [BLANK_SLOT, i as u8, BLANK_SLOT, BLANK_SLOT, BLANK_SLOT, BLANK_SLOT, BLANK_SLOT], via_setters: true, order: 1 });
+            out.push((format!("pairs with {}", card_name(i)), ops));
+        }
+        // prefixes and suffixes of the deck: counts 0..52, validity, drain length
+        for k in 0..=52usize {
+            let prefix = (0..k).fold(0u64, |a, i| a | card_bit(i));
+            let suffix = (52 - k..52).fold(0u64, |a, i| a | card_bit(i));
+            out.push((format!("deck prefix and suffix of {} cards", k), vec![Op::BuildRaw { dst: 0, bits: prefix }, Op::Count { r: 0 }, Op::Valid { r: 0 }, Op::Single { r: 0 }, Op::Drain { r: 0 }, Op::BuildRaw { dst: 1, bits: suffix }, Op::Count { r: 1 }, Op::Has { r: 1, q: prefix }, Op::Drain { r: 1 }, Op::Valid { r: 1 }]));
+        }
+        // text with exactly k tokens, k = 0..60 (a token-count limit shows here), plain and with odd separators
+        for k in 0..=60usize {
+            let toks: Vec<Tok> = (0..k).map(|t| Tok::Card { idx: ((t * 37 + k) % 52) as u8, spell: (t % 12) as u8, tail: 0 }).collect();
+            out.push((format!("text with {} tokens", k), vec![Op::BuildText { dst: 0, tokens: toks.clone(), seps: vec![], lead: false, trail: false }, Op::Count { r: 0 }, Op::BuildText { dst: 1, tokens: toks, seps: (0..k).map(|t| (t % 6) as u8).collect(), lead: k % 2 == 0, trail: k % 3 == 0 }, Op::Count { r: 1 }]));
+        }
+        // interleaved peeling of several sets (hidden shared state between peels would show here)
+        out.push((
+            "interleaved peels on three sets".into(),
+            {
+                let mut ops = vec![Op::BuildRaw { dst: 0, bits: CARD_MASK }, Op::BuildRaw { dst: 1, bits: (0..13).fold(0u64, |a, k| a | card_bit(13 + k)) }, Op::BuildRaw { dst: 2, bits: card_bit(51) | card_bit(0) | 1u64 << 60 }];
+                for t in 0..60 {
+                    ops.push(Op::Peel { r: (t % 3) as u8 });
+                    if t % 7 == 0 {
+                        ops.push(Op::Count { r: ((t + 1) % 3) as u8 });
+                    }
+                }
+                ops
+            },
+        ));
         // folds
         out.push((
             "fold the deck card by card, then fold halves together".into(),
